@@ -4,7 +4,7 @@
    Primitives are explicit premises: H (Keccak-256 of what a MAC hash absorbed),
    aes_block (macCipher.Encrypt), ks (AES-CTR key stream shared by both sides),
    snappy_enc/snappy_dec, recover (ECDSA public-key recovery), sign. *)
-From AQ Require Import Lib.Bytes Lib.Keccak Rlp.RlpSpec Net.Frame Net.Discover Net.Limits Net.NetProofs.
+From AQ Require Import Lib.Bytes Lib.Keccak Rlp.RlpSpec Generated.GenParamsNet Net.Frame Net.Discover Net.Limits Net.NetProofs.
 Local Open Scope N_scope.
 
 (* ---- RLPx frames ---- *)
@@ -80,6 +80,62 @@ Theorem C17_frame_byte_flip_detected :
 Proof. exact frame_byte_flip_detected. Qed.
 Print Assumptions C17_frame_byte_flip_detected.
 
+(* Any strict prefix of a written frame (connection cut, bytes withheld) is a
+   short-read error: nothing is delivered. *)
+Theorem C17_frame_truncation_detected :
+  forall (H aes_block : bytes -> bytes) (ks : N -> byte) (snappy_dec : bytes -> option bytes),
+  (forall m, length (H m) = 32%nat) ->
+  forall (snappy : bool) (pos : N) (mac : bytes) (fsize : N) (body : bytes) (k : nat),
+  fsize <= max_uint24 -> lenN body = frame_buf_size fsize ->
+  (k < length (frame H aes_block ks pos mac fsize body))%nat ->
+  read_msg H aes_block ks snappy_dec snappy (mk_rstate pos mac)
+    (firstn k (frame H aes_block ks pos mac fsize body)) = RErr RShort.
+Proof. exact frame_truncation_detected. Qed.
+Print Assumptions C17_frame_truncation_detected.
+
+(* Session level.  The writer sends ms1, then (c, p) as frame F, then anything.
+   One byte of F is altered on the wire.  However many reads the receiver
+   attempts (n > |ms1|): the messages before F are delivered unchanged, reading F
+   fails a MAC check with the reader still in the state it had before F, and
+   nothing after it is delivered. *)
+Theorem C17_session_tamper_detected :
+  forall (H aes_block : bytes -> bytes) (ks : N -> byte)
+         (snappy_enc : bytes -> bytes) (snappy_dec : bytes -> option bytes),
+  (forall m, length (H m) = 32%nat) ->
+  (forall a b, firstn 16 (H a) = firstn 16 (H b) -> a = b) ->
+  (forall b, length (aes_block b) = 16%nat) ->
+  (forall p, snappy_dec (snappy_enc p) = Some p) ->
+  (forall p, lenN p <= max_uint24 -> snappy_declen (snappy_enc p) = Some (lenN p)) ->
+  forall (snappy : bool) (ms1 : list (N * bytes)) (c : N) (p : bytes) (pos : N) (mac out1 : bytes)
+         (st1 : wstate) (F : bytes) (st2 : wstate) (i : nat) (b : byte) (rest : bytes) (n : nat),
+  Forall (msg_ok snappy_enc snappy) ms1 -> msg_ok snappy_enc snappy (c, p) ->
+  write_all H aes_block ks snappy_enc snappy (mk_wstate pos mac) ms1 = Some (out1, st1) ->
+  write_msg H aes_block ks snappy_enc snappy st1 c p = WOk F st2 ->
+  (i < length F)%nat -> nth i F x00 <> b -> (length ms1 < n)%nat ->
+  exists e, read_n H aes_block ks snappy_dec snappy n (mk_rstate pos mac) (out1 ++ set_nth i b F ++ rest) =
+              (ms1, Some e, mk_rstate (w_pos st1) (w_mac st1), set_nth i b F ++ rest) /\
+            (e = RHeaderMac \/ e = RFrameMac).
+Proof. exact session_tamper_detected. Qed.
+Print Assumptions C17_session_tamper_detected.
+
+(* the same for a session cut off inside frame F *)
+Theorem C17_session_truncation_detected :
+  forall (H aes_block : bytes -> bytes) (ks : N -> byte)
+         (snappy_enc : bytes -> bytes) (snappy_dec : bytes -> option bytes),
+  (forall m, length (H m) = 32%nat) ->
+  (forall p, snappy_dec (snappy_enc p) = Some p) ->
+  (forall p, lenN p <= max_uint24 -> snappy_declen (snappy_enc p) = Some (lenN p)) ->
+  forall (snappy : bool) (ms1 : list (N * bytes)) (c : N) (p : bytes) (pos : N) (mac out1 : bytes)
+         (st1 : wstate) (F : bytes) (st2 : wstate) (k n : nat),
+  Forall (msg_ok snappy_enc snappy) ms1 -> msg_ok snappy_enc snappy (c, p) ->
+  write_all H aes_block ks snappy_enc snappy (mk_wstate pos mac) ms1 = Some (out1, st1) ->
+  write_msg H aes_block ks snappy_enc snappy st1 c p = WOk F st2 ->
+  (k < length F)%nat -> (length ms1 < n)%nat ->
+  read_n H aes_block ks snappy_dec snappy n (mk_rstate pos mac) (out1 ++ firstn k F) =
+    (ms1, Some RShort, mk_rstate (w_pos st1) (w_mac st1), firstn k F).
+Proof. exact session_truncation_detected. Qed.
+Print Assumptions C17_session_truncation_detected.
+
 (* `frame` (= f_hc ++ f_hm ++ f_ct ++ f_fm) is exactly what WriteMsg emits *)
 Theorem C17_write_msg_is_frame :
   forall (H aes_block : bytes -> bytes) (ks : N -> byte) (snappy_enc : bytes -> bytes)
@@ -129,36 +185,28 @@ Theorem C17_packet_authentic :
 Proof. exact packet_authentic. Qed.
 Print Assumptions C17_packet_authentic.
 
-(* Full-strength clause "decode_packet never panics":
-     forall H recover netcompat buf, decode_packet H recover netcompat buf <> DPanic
-   is FALSE of the faithful model (p2p/discover/udp.go decodePacket slices
-   sigdata[1+4:] without a length check).  Every correctly hashed and signed
-   datagram with 1..4 bytes of signed data and a known type byte panics: *)
-Theorem C17_decode_packet_short_sigdata_panics :
+(* decodePacket never panics: for EVERY byte string, in both network modes,
+   whatever H and recover are.  (Until commit f90a10c "fix: discover decodePacket
+   rejects datagrams whose signed data is shorter than the type byte plus network
+   tag" this clause was refuted: sigdata[1+4:] was sliced unchecked.) *)
+Theorem C17_decode_packet_never_panics :
+  forall (H : bytes -> bytes) (recover : bytes -> bytes -> option bytes) (netcompat : bool) (buf : bytes),
+  decode_packet H recover netcompat buf <> DPanic.
+Proof. exact decode_packet_never_panics. Qed.
+Print Assumptions C17_decode_packet_never_panics.
+
+(* the datagrams that used to crash the node: correctly hashed and signed, 1..4
+   bytes of signed data, known type byte — now rejected, with the signer identified *)
+Theorem C17_decode_packet_short_sigdata_rejected :
   forall (H : bytes -> bytes) (recover : bytes -> bytes -> option bytes),
   (forall m, length (H m) = 32%nat) ->
   forall (sig sigdata : bytes) (t0 : byte) (id : bytes),
   length sig = 65%nat -> hd_error sigdata = Some t0 -> (length sigdata < 5)%nat ->
   134 <= b2n t0 <= 137 ->
   recover (H sigdata) sig = Some id ->
-  decode_packet H recover false (H (sig ++ sigdata) ++ sig ++ sigdata) = DPanic.
-Proof. exact decode_packet_short_sigdata_panics. Qed.
-Print Assumptions C17_decode_packet_short_sigdata_panics.
-
-Theorem C17_decode_packet_never_panics_refuted :
-  exists (recover : bytes -> bytes -> option bytes) (buf : bytes),
-    (exists id, recover (keccak256 (skipn 97 buf)) (firstn 65 (skipn 32 buf)) = Some id) /\
-    keccak256 (skipn 32 buf) = firstn 32 buf /\
-    decode_packet keccak256 recover false buf = DPanic.
-Proof. exact decode_packet_never_panics_refuted. Qed.
-Print Assumptions C17_decode_packet_never_panics_refuted.
-
-(* the remainder: no panic for datagrams of at least 102 bytes, and none at all in netcompat mode *)
-Theorem C17_decode_packet_never_panics_partial :
-  forall (H : bytes -> bytes) (recover : bytes -> bytes -> option bytes) (netcompat : bool) (buf : bytes),
-  netcompat = true \/ 102 <= lenN buf -> decode_packet H recover netcompat buf <> DPanic.
-Proof. exact decode_packet_no_panic_partial. Qed.
-Print Assumptions C17_decode_packet_never_panics_partial.
+  decode_packet H recover false (H (sig ++ sigdata) ++ sig ++ sigdata) = DTooSmallBody id.
+Proof. exact decode_packet_short_sigdata_rejected. Qed.
+Print Assumptions C17_decode_packet_short_sigdata_rejected.
 
 (* ---- aqua sub-protocol limits ---- *)
 Theorem C17_gate_rejects_oversize : forall code size,
@@ -173,6 +221,31 @@ Theorem C17_serve_bounded : forall limit l count bytes lookups c b k maxsz,
   c <= limit /\ b < soft_response_limit + maxsz /\ k <= lookups + lenN l /\ count <= c.
 Proof. exact serve_bounded. Qed.
 Print Assumptions C17_serve_bounded.
+
+(* ---- constants regenerated from /repo on every run (Generated/GenParamsNet.v),
+        pinned to the documented values and to the relations the models use ---- *)
+Theorem C17_net_params_pinned :
+  g_max_uint24 = 2 ^ 24 - 1 /\ map n2b g_zero_header = [xc2; x80; x80] /\
+  g_protocol_max_msg_size = 10 * 1024 * 1024 /\ g_protocol_max_msg_size <= g_max_uint24 /\
+  g_base_protocol_max_msg_size = 2048 /\ g_base_protocol_length = 16 /\
+  g_soft_response_limit = 2 * 1024 * 1024 /\ g_soft_response_limit + g_protocol_max_msg_size <= g_max_uint24 /\
+  g_est_header_rlp_size = 500 /\
+  g_max_hash_fetch = 512 /\ g_max_block_fetch = 128 /\ g_max_header_fetch = 192 /\
+  g_max_receipt_fetch = 256 /\ g_max_state_fetch = 384 /\
+  g_max_header_fetch * g_est_header_rlp_size <= g_soft_response_limit /\
+  g_aqua_codes = [0; 1; 2; 3; 4; 5; 6; 7; 13; 14; 15; 16] /\
+  Forall (fun l => Forall (fun c => c < l) g_aqua_codes) g_protocol_lengths /\
+  g_mac_size = 32 /\ g_sig_size = 65 /\ g_head_size = g_mac_size + g_sig_size /\ g_head_size = 97 /\
+  g_aqua_ping = 134 /\ g_aqua_pong = 135 /\ g_aqua_findnode = 136 /\ g_aqua_neighbors = 137 /\
+  g_eth_ping + 133 = g_aqua_ping /\ g_eth_neighbors + 133 = g_aqua_neighbors /\
+  g_expiration_ms = 4000 /\ g_resp_timeout_ms = 4000 /\ g_bond_expiration_ms = 3600 * 1000 /\
+  g_max_neighbors = 12 /\
+  g_auth_msg_len = 65 + 32 + 64 + 32 + 1 /\ g_auth_resp_len = 64 + 32 + 1 /\ g_ecies_overhead = 65 + 16 + 32 /\
+  g_enc_auth_msg_len = g_auth_msg_len + g_ecies_overhead /\ g_enc_auth_resp_len = g_auth_resp_len + g_ecies_overhead /\
+  g_enc_auth_msg_len = 307 /\ g_enc_auth_resp_len = 210 /\
+  g_handshake_timeout_ms = 5000 /\ g_frame_read_timeout_ms = 30000.
+Proof. exact net_params_pinned. Qed.
+Print Assumptions C17_net_params_pinned.
 
 (* ---- non-vacuity: a concrete session with Keccak-256, a toy block cipher and key stream ---- *)
 Example C17_example_session :
